@@ -607,6 +607,7 @@ func (server *Server) registerCoreExecutors() {
 			if !isOption {
 				break
 			}
+			param, err = args.NextString()
 		}
 		if err != nil {
 			return nil, newMissingArgumentError(cmd, "score", err)
@@ -615,21 +616,21 @@ func (server *Server) registerCoreExecutors() {
 		members := []*ZSetMember{}
 		member, err := args.NextString()
 		if err != nil {
-			err = newMissingArgumentError(cmd, "member", err)
+			return nil, newMissingArgumentError(cmd, "member", err)
 		}
-		for err == nil {
+		for {
 			members = append(members, &ZSetMember{Score: score, Member: member})
 			score, err = nextScoreArgument(cmd, "score", args)
 			if err != nil {
-				break
+				if errors.Is(err, proto.ErrEOM) {
+					break
+				}
+				return nil, err
 			}
 			member, err = nextStringArgument(cmd, "member", args)
 			if err != nil {
-				break
+				return nil, err
 			}
-		}
-		if !errors.Is(err, proto.ErrEOM) {
-			return nil, err
 		}
 
 		return server.userCommandHandler.ZAdd(conn, key, members, opt)
